@@ -325,49 +325,67 @@ func configs2(r *ev.Run) {
 		}
 		runtime.GOMAXPROCS(16)
 		// rasteriser: conservative filters vs none, pixel for pixel
-		for _, scale := range []float64{7, 20, 33.3} {
-			for _, sub := range []int{1, 2, 4, 8, 16} {
-				rs := &model2d.Rasterizer{Scale: scale, Subsamples: sub}
-				want := rs.RasterizeSolid(sh.s)
-				for fname, f := range map[string]func(*model2d.Rect) bool{
-					"always-true": func(*model2d.Rect) bool { return true },
-					"sdf-exact": func(rc *model2d.Rect) bool {
-						c := rc.MinVal.Mid(rc.MaxVal)
-						return math.Abs(sh.sdf.SDF(c)) <= rc.MinVal.Dist(c)
-					},
-					"sdf-dilated": func(rc *model2d.Rect) bool {
-						c := rc.MinVal.Mid(rc.MaxVal)
-						return math.Abs(sh.sdf.SDF(c)) <= rc.MinVal.Dist(c)+0.2
-					},
-				} {
-					r.Eval(1)
-					rejected := 0
-					g := func(rc *model2d.Rect) bool {
-						v := f(rc)
-						if !v {
-							rejected++
+		// canvases: the solid's own bounds, a canvas that crops through the interior (uniform tiles then reach the
+		// last column/row, where tiles are clipped) and a padded one
+		smn, smx := sh.s.Min(), sh.s.Max()
+		ssz := smx.Sub(smn)
+		canvases := []struct {
+			name string
+			b    model2d.Bounder
+		}{
+			{"own", nil},
+			{"cropped", &model2d.Rect{MinVal: smn.Add(ssz.Scale(0.23)), MaxVal: smx.Sub(ssz.Scale(0.19))}},
+			{"cropped-one-side", &model2d.Rect{MinVal: smn, MaxVal: smx.Sub(model2d.XY(ssz.X*0.31, 0))}},
+			{"padded", &model2d.Rect{MinVal: smn.Sub(ssz.Scale(0.37)), MaxVal: smx.Add(ssz.Scale(0.29))}},
+		}
+		for _, scale := range []float64{3.1, 7, 20, 33.3} {
+			for _, cv := range canvases {
+				for _, sub := range []int{1, 2, 3, 4, 5, 8, 16} {
+					if cv.b != nil && (scale > 25 || sub == 16) {
+						continue
+					}
+					rs := &model2d.Rasterizer{Scale: scale, Subsamples: sub, Bounds: cv.b}
+					want := rs.RasterizeSolid(sh.s)
+					for fname, f := range map[string]func(*model2d.Rect) bool{
+						"always-true": func(*model2d.Rect) bool { return true },
+						"sdf-exact": func(rc *model2d.Rect) bool {
+							c := rc.MinVal.Mid(rc.MaxVal)
+							return math.Abs(sh.sdf.SDF(c)) <= rc.MinVal.Dist(c)
+						},
+						"sdf-dilated": func(rc *model2d.Rect) bool {
+							c := rc.MinVal.Mid(rc.MaxVal)
+							return math.Abs(sh.sdf.SDF(c)) <= rc.MinVal.Dist(c)+0.2
+						},
+					} {
+						r.Eval(1)
+						rejected := 0
+						g := func(rc *model2d.Rect) bool {
+							v := f(rc)
+							if !v {
+								rejected++
+							}
+							return v
 						}
-						return v
+						got := rs.RasterizeSolidFilter(sh.s, g)
+						if !bytes.Equal(got.Pix, want.Pix) || got.Rect != want.Rect {
+							r.Violation("config/RasterizeSolidFilter/"+fname, "image differs from RasterizeSolid", cfgCase{"RasterizeSolidFilter", sh.name, 16, fname, scale, fmt.Sprintf("subsamples=%d canvas=%s", sub, cv.name)})
+						}
+						if rejected > 0 {
+							r.NontrivialKey(fmt.Sprintf("raster/%s/%s/%v/%d/%s", sh.name, fname, scale, sub, cv.name))
+						}
 					}
-					got := rs.RasterizeSolidFilter(sh.s, g)
-					if !bytes.Equal(got.Pix, want.Pix) || got.Rect != want.Rect {
-						r.Violation("config/RasterizeSolidFilter/"+fname, "image differs from RasterizeSolid", cfgCase{"RasterizeSolidFilter", sh.name, 16, fname, scale, fmt.Sprintf("subsamples=%d", sub)})
+					// built-in conservative filter of RasterizeColliderSolid against the plain solid rasterisation
+					if sub > 4 || scale > 25 {
+						continue
 					}
-					if rejected > 0 {
-						r.NontrivialKey(fmt.Sprintf("raster/%s/%s/%v/%d", sh.name, fname, scale, sub))
+					r.Eval(1)
+					mesh := model2d.MarchingSquaresSearch(sh.s, 0.05, 8)
+					coll := model2d.MeshToCollider(mesh)
+					w2 := rs.RasterizeSolid(model2d.NewColliderSolid(coll))
+					g2 := rs.RasterizeColliderSolid(coll)
+					if !bytes.Equal(w2.Pix, g2.Pix) {
+						r.Violation("config/RasterizeColliderSolid", "image differs from RasterizeSolid of the same collider solid", cfgCase{"RasterizeColliderSolid", sh.name, 16, "built-in", scale, fmt.Sprintf("subsamples=%d canvas=%s", sub, cv.name)})
 					}
-				}
-				// built-in conservative filter of RasterizeColliderSolid against the plain solid rasterisation
-				if sub > 4 || scale > 25 {
-					continue
-				}
-				r.Eval(1)
-				mesh := model2d.MarchingSquaresSearch(sh.s, 0.05, 8)
-				coll := model2d.MeshToCollider(mesh)
-				w2 := rs.RasterizeSolid(model2d.NewColliderSolid(coll))
-				g2 := rs.RasterizeColliderSolid(coll)
-				if !bytes.Equal(w2.Pix, g2.Pix) {
-					r.Violation("config/RasterizeColliderSolid", "image differs from RasterizeSolid of the same collider solid", cfgCase{"RasterizeColliderSolid", sh.name, 16, "built-in", scale, fmt.Sprintf("subsamples=%d", sub)})
 				}
 			}
 		}
